@@ -10,7 +10,7 @@ void __vp_lcd_display(const void *obj, int on);
 void __vp_lcd_backlight(const void *obj, int on);
 void __vp_lcd_glyph(const void *obj, int slot, const uint8_t *rows);
 }
-class __vp_lcd_base : public Print {
+class __vp_lcd_base : public __vp_print<__vp_lcd_base> {
 public:
   void clear() { __col = 0; __row = 0; __vp_lcd_clear(this); }
   void home() { __col = 0; __row = 0; __vp_lcd_cursor(this, 0, 0); }
@@ -27,10 +27,10 @@ public:
   void autoscroll() { __vp_unsupported(20); }
   void noAutoscroll() {}
   size_t write(uint8_t ch) { __vp_lcd_put(this, __row, __col, (int)ch); ++__col; return 1; }
-  using Print::write;
+  size_t __cell(int cell) { __vp_lcd_put(this, __row, __col, cell); ++__col; return 1; }
+  size_t __newline() { write((uint8_t)'\r'); return write((uint8_t)'\n'); }
 protected:
   __vp_lcd_base() : __col(0), __row(0) {}
-  size_t __emit_cell(int cell) { __vp_lcd_put(this, __row, __col, cell); ++__col; return 1; }
   int __col;
   int __row;
 };
